@@ -12,6 +12,7 @@ import CbiVerif.Drv.CLex
 import CbiVerif.Drv.Compilers
 import CbiVerif.Drv.Eval
 import CbiVerif.Drv.CodeBase
+import CbiVerif.Drv.Order
 /-! Native JSON-lines driver: one request object per line, one reply per line.
 Each area registers its ops in `CbiVerif/Drv/<Area>.lean`. -/
 open Lean
@@ -29,7 +30,8 @@ def handlerTable : List (String × (Json → Json)) :=
   CbiVerif.Drv.CLex.handlers ++
   CbiVerif.Drv.Compilers.handlers ++
   CbiVerif.Drv.Eval.handlers ++
-  CbiVerif.Drv.CodeBase.handlers
+  CbiVerif.Drv.CodeBase.handlers ++
+  CbiVerif.Drv.Order.handlers
 
 def handle (j : Json) : Json :=
   match j.getObjValAs? String "op" with
